@@ -5,27 +5,41 @@
 (* the keys present in the project file, overlaid by the key=value tokens   *)
 (* of the batch line applied one after the other.  Unknown keys are         *)
 (* ignored; no key occurs twice on a line.                                  *)
+(* One key (DerivedKey, e.g. ResultFileExt) has no fixed default: while it  *)
+(* is unset (value 0) after file and line, its value is derived from the    *)
+(* EFFECTIVE value of another key (SourceKey, e.g. ResultFileFormat) - the  *)
+(* last step of readConfig.  DeriveEarly = TRUE derives it before the line  *)
+(* is applied (a plausible reordering of readConfig): control, must violate *)
+(* Precedence.                                                              *)
 (***************************************************************************)
 EXTENDS Integers, Sequences, FiniteSets
-CONSTANTS Keys, Unknown, Vals, Default
+CONSTANTS Keys, Unknown, Vals, Default, DerivedKey, SourceKey, DeriveEarly
 VARIABLES file, line, pos, eff
 vars == <<file, line, pos, eff>>
 AllKeys == Keys \cup Unknown
+Derive(v) == v + 10                      \* the derived default as a function of the source key's value
 \* all sequences of distinct (key, value) tokens
 Tokens == AllKeys \X Vals
 DistinctKeys(s) == \A i, j \in 1..Len(s) : i # j => s[i][1] # s[j][1]
 Lines == {s \in UNION {[1..n -> Tokens] : n \in 0..3} : DistinctKeys(s)}
 Overlay(base, f) == [k \in Keys |-> IF k \in DOMAIN f THEN f[k] ELSE base[k]]
+FillDerived(e) == IF e[DerivedKey] = 0 THEN [e EXCEPT ![DerivedKey] = Derive(e[SourceKey])] ELSE e
 Init == /\ \E ks \in SUBSET Keys : file \in [ks -> Vals]
         /\ line \in Lines /\ pos = 1
-        /\ eff = Overlay(Default, file)
+        /\ eff = (IF DeriveEarly THEN FillDerived(Overlay(Default, file)) ELSE Overlay(Default, file))
 \* one token of the line is applied (reflective override: only existing keys)
 ApplyToken == /\ pos <= Len(line)
               /\ eff' = (IF line[pos][1] \in Keys THEN [eff EXCEPT ![line[pos][1]] = line[pos][2]] ELSE eff)
               /\ pos' = pos + 1 /\ UNCHANGED <<file, line>>
-Spec == Init /\ [][ApplyToken]_vars
+\* after the line: derived defaults are filled in from the effective values
+Finish == /\ pos = Len(line) + 1
+          /\ eff' = (IF DeriveEarly THEN eff ELSE FillDerived(eff))
+          /\ pos' = pos + 1 /\ UNCHANGED <<file, line>>
+Spec == Init /\ [][ApplyToken \/ Finish]_vars
 ArgOf(k) == IF \E i \in 1..Len(line) : line[i][1] = k THEN line[CHOOSE i \in 1..Len(line) : line[i][1] = k][2] ELSE 0 - 1
-\* C14: line over file over default, whatever the order of the tokens
-Effective(k) == IF ArgOf(k) # 0 - 1 THEN ArgOf(k) ELSE IF k \in DOMAIN file THEN file[k] ELSE Default[k]
-Precedence == pos = Len(line) + 1 => \A k \in Keys : eff[k] = Effective(k)
+\* C14: line over file over default, whatever the order of the tokens; the default of the derived key is the image of
+\* the effective value of its source key
+Given(k) == IF ArgOf(k) # 0 - 1 THEN ArgOf(k) ELSE IF k \in DOMAIN file THEN file[k] ELSE Default[k]
+Effective(k) == IF k = DerivedKey /\ Given(k) = 0 THEN Derive(Given(SourceKey)) ELSE Given(k)
+Precedence == pos = Len(line) + 2 => \A k \in Keys : eff[k] = Effective(k)
 =============================================================================
